@@ -19,18 +19,51 @@ Contract K.  requires: `other`, `s` are str; escape is None (default "/") or one
   ensures[backend] the SQL text the real compiler emits for expr, executed by the in-process sqlite3 with
                    PRAGMA case_sensitive_like=ON on a table holding every s of the scope, selects exactly the rows
                    {s | PY(s, other)} (complement for the not_ forms).
+  ensures[receiver] the operator may be applied to anything that implements ColumnOperators.operate(); every such receiver
+                   forwards the operator AND its keyword arguments (escape=, autoescape=) down to the column's comparator.
+                   For each receiver R of the catalogue below that stands for the string column t.s (possibly through a
+                   relationship), `select(<id of R's row>).where(OP(R, other, escape=escape, autoescape=True))`, executed
+                   through a real Engine on SQLite (case_sensitive_like=ON; compiled cache on, so all operands after the
+                   first run on a cache hit), returns exactly the ids of the rows whose string s satisfies PY(s, other)
+                   (complement for the not_ forms; every parent row has exactly one related string, so EXISTS / NOT EXISTS
+                   criteria of association proxies have the same literal meaning).  A receiver whose API refuses the
+                   operator (NotImplementedError / TypeError / InvalidRequestError when the criterion is built) is skipped.
+     receivers  Core:  column("s", String), column("s") without a type, literal_column, Table column, alias column,
+                       subquery column, label, cast, type_coerce to a TypeDecorator(String), type_coerce to a String subclass
+                       with its own comparator_factory, func.coalesce(s, s), correlated scalar subquery
+                ORM:   mapped attribute, attribute of aliased(), column_property, synonym, hybrid_property,
+                       an unbound mapped_column() construct (MappedColumn.operate)
+                ext:   association proxy -> column through many-to-one and through one-to-many, association proxy ->
+                       hybrid_property
+  ensures[evaluator] the ORM decides the same question in Python when a bulk UPDATE / DELETE is synchronized with
+                   synchronize_session="evaluate" (what the default "auto" tries first): after
+                   session.execute(update(T).where(OP(T.s, other, escape=escape, autoescape=True)).values(flag=K)) the objects
+                   already loaded in the session that carry flag == K are exactly those whose s satisfies PY(s, other)
+                   (complement for the not_ forms) - the same rows that carry flag == K in the database.  An operator the
+                   evaluator refuses ("Could not evaluate current criteria in Python") is skipped.
   The spec function like_match is itself cross-checked against sqlite3's LIKE on all (pattern, string, escape)
   triples of the quick scope (a disagreement is a checker error, exit 3, not a violation).
 
 Scope Bd (exhaustive): alphabet { % _ / \\ ' a A }; other and s range over ALL strings of length 0..3 (quick, 400
   each) / 0..4 (thorough, 2801 each); escape in { default "/", "\\", "^" }; all 12 operators.
   quick: 12*3*400*400 = 5 760 000 (op, escape, other, s) cases; thorough: 12*3*2801*2801 = 282 441 636.
+  receivers: 21 receivers x 12 operators x 3 escapes x other in ALL strings of length 0..2 (quick, 57) / 0..3 (thorough, 400)
+  x s in ALL strings of length 0..3 (400 rows; each row also the single related row of one parent per relationship).
+  evaluator: 12 operators x 3 escapes x other in ALL strings of length 0..2 (57) x the 57 (quick) / 400 (thorough) objects whose s
+  ranges over ALL strings of length 0..2 / 0..3, all loaded in one Session.
 """
 import sqlite3
+import warnings
 
-from sqlalchemy import String, column
+from sqlalchemy import (Column, ForeignKey, Integer, String, cast, column, create_engine, event, exc, func, insert, literal_column, select,
+                        type_coerce, update)
 from sqlalchemy.dialects import sqlite
+from sqlalchemy.ext.associationproxy import association_proxy
+from sqlalchemy.ext.hybrid import hybrid_property
+from sqlalchemy.orm import Session, aliased, column_property, declarative_base, mapped_column, relationship, synonym
+from sqlalchemy.pool import StaticPool
 from sqlalchemy.sql import operators
+from sqlalchemy.types import TypeDecorator
 
 from rtc import strspec as S
 
@@ -138,6 +171,224 @@ def _work(task):
     return dict(n_backend=n_backend, n_spec=n_spec, discriminating=discriminating, rewritten=rewritten, fails=fails, samples=samples)
 
 
+# ------------------------------------------------------------------------------------------------ ensures[receiver]
+
+class _PassThrough(TypeDecorator):
+    impl = String
+    cache_ok = True
+
+
+class _MyString(String):
+    """a String subclass with a user-defined comparator (adds nothing; operate() is the inherited one)"""
+
+    class comparator_factory(String.Comparator):
+        __slots__ = ()
+
+
+_ENV = {}
+
+
+def _receiver_env():
+    """the mapping and the receiver catalogue: name -> (expression that receives the operator, id column selected)"""
+    if _ENV:
+        return _ENV
+    Base = declarative_base()
+
+    class Owner(Base):  # one-to-many side: an owner's single item
+        __tablename__ = "owner"
+        id = Column(Integer, primary_key=True)
+        items = relationship("T")
+        texts = association_proxy("items", "s")
+
+    class T(Base):
+        __tablename__ = "t"
+        id = Column(Integer, primary_key=True)
+        s = Column(String, nullable=False)
+        owner_id = Column(ForeignKey("owner.id"))
+        flag = Column(Integer)
+        s_prop = column_property(cast(s, String))
+        s_syn = synonym("s")
+
+        @hybrid_property
+        def s_hyb(self):
+            return self.s
+
+    class Holder(Base):  # many-to-one side
+        __tablename__ = "holder"
+        id = Column(Integer, primary_key=True)
+        t_id = Column(ForeignKey("t.id"))
+        item = relationship(T)
+        text = association_proxy("item", "s")
+        text_hyb = association_proxy("item", "s_hyb")
+
+    t = T.__table__
+    al = t.alias("a")
+    sq = select(t).subquery()
+    t2 = t.alias("t2")
+    A = aliased(T)
+    _ENV.update(
+        base=Base, T=T, t=t, owner=Owner.__table__, holder=Holder.__table__,
+        receivers={
+            "column": (column("s", String), t.c.id),
+            "untyped-column": (column("s"), t.c.id),
+            "literal_column": (literal_column("s", String), t.c.id),
+            "table-column": (t.c.s, t.c.id),
+            "alias-column": (al.c.s, al.c.id),
+            "subquery-column": (sq.c.s, sq.c.id),
+            "label": (t.c.s.label("x"), t.c.id),
+            "cast": (cast(t.c.s, String), t.c.id),
+            "type_coerce-typedecorator": (type_coerce(t.c.s, _PassThrough), t.c.id),
+            "type_coerce-custom-comparator": (type_coerce(t.c.s, _MyString), t.c.id),
+            "func.coalesce": (func.coalesce(t.c.s, t.c.s), t.c.id),
+            "scalar-subquery": (select(t2.c.s).where(t2.c.id == t.c.id).scalar_subquery(), t.c.id),
+            "orm-attribute": (T.s, T.id),
+            "orm-aliased-attribute": (A.s, A.id),
+            "orm-column_property": (T.s_prop, T.id),
+            "orm-synonym": (T.s_syn, T.id),
+            "orm-hybrid_property": (T.s_hyb, T.id),
+            "orm-mapped_column-construct": (mapped_column("s", String), t.c.id),
+            "association_proxy-many-to-one": (Holder.text, Holder.id),
+            "association_proxy-one-to-many": (Owner.texts, Owner.id),
+            "association_proxy-to-hybrid": (Holder.text_hyb, Holder.id),
+        })
+    return _ENV
+
+
+def _receiver_engine(rows):
+    env = _receiver_env()
+    eng = create_engine("sqlite://", poolclass=StaticPool)
+
+    @event.listens_for(eng, "connect")
+    def _cs(dbapi_conn, rec):
+        dbapi_conn.execute("PRAGMA case_sensitive_like=ON")
+
+    env["base"].metadata.create_all(eng)
+    with eng.begin() as conn:
+        ids = [dict(id=i) for i in range(1, len(rows) + 1)]
+        conn.execute(insert(env["owner"]), ids)
+        conn.execute(insert(env["t"]), [dict(id=i, s=r, owner_id=i) for i, r in enumerate(rows, 1)])
+        conn.execute(insert(env["holder"]), [dict(id=i, t_id=i) for i in range(1, len(rows) + 1)])
+    return eng
+
+
+def _receiver_case(conn, name, opname, other, escape):
+    """ids selected by the real statement, or None when the API refuses the operator on this receiver; also the SQL text"""
+    recv, idcol = _receiver_env()["receivers"][name]
+    kw = {} if escape is None else {"escape": escape}
+    try:
+        crit = getattr(operators, opname)(recv, other, autoescape=True, **kw)
+        stmt = select(idcol).where(crit)
+    except (NotImplementedError, TypeError, exc.InvalidRequestError, exc.ArgumentError):
+        return None, None
+    return {r[0] for r in conn.execute(stmt)}, stmt
+
+
+def _work_receivers(task):
+    others, maxlen = task
+    rows = S.strings(ALPHABET, maxlen)
+    lower = [r.lower() for r in rows]
+    allids = set(range(1, len(rows) + 1))
+    names = list(_receiver_env()["receivers"])
+    n = discriminating = refused = 0
+    fails, samples = [], []
+    per_receiver = dict.fromkeys(names, 0)
+    with warnings.catch_warnings():
+        warnings.simplefilter("ignore")
+        eng = _receiver_engine(rows)
+        with eng.connect() as conn:
+            for other in others:
+                lo = other.lower()
+                want_by = {}
+                for opname, kind, ci, neg in OPS:
+                    pos = {i + 1 for i in range(len(rows)) if _py(kind, lower[i] if ci else rows[i], lo if ci else other)}
+                    want_by[opname] = allids - pos if neg else pos
+                # what the same operator selects when nothing is escaped (the raw operand as LIKE pattern), measured on the
+                # plain column: a verdict is non-trivial when it differs from that
+                raw = {}
+                for opname, kind, ci, neg in OPS:
+                    sql = "SELECT id FROM t WHERE %s(%s LIKE %s)" % ("NOT " if neg else "", "lower(s)" if ci else "s",
+                                                                     {"startswith": "? || '%'", "endswith": "'%' || ?", "contains": "'%' || ? || '%'"}[kind])
+                    raw[opname] = {r[0] for r in conn.exec_driver_sql(sql, (lo if ci else other,))}
+                for escape in ESCAPES:
+                    for name in names:
+                        for opname, kind, ci, neg in OPS:
+                            got, stmt = _receiver_case(conn, name, opname, other, escape)
+                            if got is None:
+                                refused += 1
+                                continue
+                            want = want_by[opname]
+                            n += len(rows)
+                            per_receiver[name] += 1
+                            discriminating += len(raw[opname] ^ want)
+                            if got != want and len(fails) < 40:
+                                i = sorted(got ^ want)[0]
+                                fails.append(_fail("receiver", opname, escape, other, rows[i - 1], i in want, i in got, receiver=name,
+                                                   rows_differing=len(got ^ want), sql=str(stmt.compile(eng))))
+                            elif len(samples) < 2 and name.startswith("association_proxy") and raw[opname] != want and not neg and escape:
+                                samples.append(dict(receiver=name, op=opname, escape=escape, other=other, sql=str(stmt.compile(eng)),
+                                                    rows_matched=len(got), rows=len(rows)))
+        eng.dispose()
+    for f in fails:
+        f["input"]["receiver"] = f.pop("receiver")
+    return dict(n=n, discriminating=discriminating, refused=refused, fails=fails, samples=samples, per_receiver=per_receiver)
+
+
+# ------------------------------------------------------------------------------------------------ ensures[evaluator]
+
+def _evaluator_case(sess, objs, T, k, opname, other, escape):
+    """(ids of in-session objects marked, ids of database rows marked) by one bulk UPDATE synchronized by evaluation;
+    (None, None) when the evaluator refuses the criteria"""
+    kw = {} if escape is None else {"escape": escape}
+    crit = getattr(operators, opname)(T.s, other, autoescape=True, **kw)
+    try:
+        sess.execute(update(T).where(crit).values(flag=k), execution_options={"synchronize_session": "evaluate"})
+    except exc.InvalidRequestError:
+        return None, None
+    t = T.__table__
+    in_db = {r[0] for r in sess.connection().execute(select(t.c.id).where(t.c.flag == k))}
+    return {o.id for o in objs if o.flag == k}, in_db
+
+
+def _work_evaluator(task):
+    others, maxlen = task
+    rows = S.strings(ALPHABET, maxlen)
+    lower = [r.lower() for r in rows]
+    allids = set(range(1, len(rows) + 1))
+    T = _receiver_env()["T"]
+    n = refused = nontrivial = k = 0
+    fails = []
+    by_op = {}
+    with warnings.catch_warnings():
+        warnings.simplefilter("ignore")
+        eng = _receiver_engine(rows)
+        with Session(eng, autoflush=False) as sess:
+            objs = list(sess.execute(select(T).order_by(T.id)).scalars())
+            for other in others:
+                lo = other.lower()
+                for escape in ESCAPES:
+                    for opname, kind, ci, neg in OPS:
+                        k += 1
+                        got, in_db = _evaluator_case(sess, objs, T, k, opname, other, escape)
+                        if got is None:
+                            refused += 1
+                            continue
+                        pos = {i + 1 for i in range(len(rows)) if _py(kind, lower[i] if ci else rows[i], lo if ci else other)}
+                        want = allids - pos if neg else pos
+                        n += len(rows)
+                        by_op[opname] = by_op.get(opname, 0) + 1
+                        nontrivial += any(c in other for c in "%_" + (escape or "/"))
+                        if got != want or in_db != want:  # every failing update is kept (at most 12 * 3 * len(others)): the count must not depend on the number of workers
+                            i = sorted((got ^ want) or (in_db ^ want))[0]
+                            f = _fail("evaluator", opname, escape, other, rows[i - 1], i in want, dict(session=i in got, database=i in in_db),
+                                      objects_differing=len(got ^ want), rows_differing=len(in_db ^ want))
+                            f["function"] = "orm.evaluator (synchronize_session='evaluate') " + opname
+                            f["input"]["backend"] = "orm-evaluator"
+                            fails.append(f)
+            sess.rollback()
+        eng.dispose()
+    return dict(n=n, refused=refused, nontrivial=nontrivial, fails=fails, by_op=by_op)
+
+
 def _crosscheck(task):
     """spec function vs sqlite3: every pattern of the chunk x every string x every escape"""
     pats, maxlen = task
@@ -168,8 +419,12 @@ def run(run, tier, seed, args):
     if cc_mism:
         run.crashes.append("spec function like_match disagrees with sqlite3 LIKE: %r" % (cc_mism[:3],))
     res = S.pmap(_work, [(c, maxlen) for c in S.chunks(strs, nj * 4)])
+    recv_others = S.strings(ALPHABET, 2 if tier == "quick" else 3)
+    rres = S.pmap(_work_receivers, [(c, 3) for c in S.chunks(recv_others, nj * 2)])
+    ev_others = S.strings(ALPHABET, 2)
+    eres = S.pmap(_work_evaluator, [(c, 2 if tier == "quick" else 3) for c in S.chunks(ev_others, nj)])
     F = S.Findings(run)
-    F.extend(sorted((f for r in res for f in r["fails"]),      # smallest failing input first
+    F.extend(sorted((f for r in res + rres + eres for f in r["fails"]),      # smallest failing input first
                     key=lambda f: (len(f["input"]["other"]) + len(f["input"]["s"]), f["input"]["op"], f["input"]["other"])))
     F.finish()
     n_backend = sum(r["n_backend"] for r in res)
@@ -177,12 +432,29 @@ def run(run, tier, seed, args):
     expected_cases = len(OPS) * len(ESCAPES) * len(strs) * len(strs)
     if n_backend != expected_cases:
         run.crashes.append("enumeration incomplete: %d of %d cases" % (n_backend, expected_cases))
+    names = list(_receiver_env()["receivers"])
+    per_receiver = {k: sum(r["per_receiver"][k] for r in rres) for k in names}
+    expected_stmts = len(OPS) * len(ESCAPES) * len(recv_others)
+    short = {k: v for k, v in per_receiver.items() if v != expected_stmts}
+    if short:
+        run.crashes.append("receiver enumeration incomplete (operator refused?): %r of %d statements each" % (short, expected_stmts))
+    n_recv = sum(r["n"] for r in rres)
     run.coverage.update(
-        evaluations=n_backend,
-        distinct_nontrivial=sum(r["discriminating"] for r in res),
+        evaluations=n_backend + n_recv + sum(r["n"] for r in eres),
+        distinct_nontrivial=sum(r["discriminating"] for r in res) + sum(r["discriminating"] for r in rres),
+        receiver_evaluations=n_recv,
+        evaluator_evaluations=sum(r["n"] for r in eres),
+        evaluator_updates_by_operator={k: sum(r["by_op"].get(k, 0) for r in eres) for k in sorted({k for r in eres for k in r["by_op"]})},
+        evaluator_updates_refused=sum(r["refused"] for r in eres),
+        evaluator_updates_with_operand_needing_escape=sum(r["nontrivial"] for r in eres),
+        receiver_statements_executed=per_receiver,
+        receiver_statements_refused=sum(r["refused"] for r in rres),
+        receiver_samples=[x for r in rres for x in r["samples"]][:3],
         rule="every (operator, escape, other, s) of the scope is one case (all distinct by construction: exhaustive product). "
              "Non-trivial = the verdict depends on the escaping: the same compiled SQL run with the *raw* operand as pattern "
-             "selects/rejects row s differently from the literal semantics (measured on sqlite3, row by row).",
+             "selects/rejects row s differently from the literal semantics (measured on sqlite3, row by row). ensures[receiver]: one "
+             "case = (receiver, operator, escape, other, row), the statement executed through a real Engine; non-trivial by the same "
+             "measure (the operator with the raw operand and no ESCAPE on the plain column decides the row differently).",
         operands_rewritten_by_real_function=sum(r["rewritten"] for r in res),
         spec_evaluations=n_spec,
         like_match_vs_sqlite_triples=cc_n,
@@ -190,7 +462,9 @@ def run(run, tier, seed, args):
         samples=[s for r in res for s in r["samples"]][:6],
         exhaustive=True,
         scope="alphabet %r; other, s: all strings of length 0..%d (%d each); escape in default '/', '\\', '^'; 12 operators "
-              "(startswith/endswith/contains, i-forms, not_ forms); autoescape=True" % (ALPHABET, maxlen, len(strs)),
+              "(startswith/endswith/contains, i-forms, not_ forms); autoescape=True; receivers %s x 12 operators x 3 escapes x other: all "
+              "strings of length 0..%d (%d) x rows: all strings of length 0..3 (400)"
+              % (ALPHABET, maxlen, len(strs), names, 2 if tier == "quick" else 3, len(recv_others)),
         sqlalchemy_tree=sqlalchemy.__file__, sqlite_version=sqlite3.sqlite_version,
     )
     run.assumptions += [
@@ -201,6 +475,11 @@ def run(run, tier, seed, args):
         "without autoescape leaves escaping to the caller and has no literal-semantics contract",
         "MySQL's default NO_BACKSLASH_ESCAPES=off changes how a '\\' ESCAPE literal is lexed: string-literal lexing is C05's subject, outside here",
         "Python str.startswith / str.endswith / `in` are the definition of prefix / suffix / substring",
+        "receivers: an association proxy reached through aliased() is outside (on the unchanged tree its EXISTS is not correlated to the "
+        "alias for ANY operator, == included - not a matter of LIKE escaping); proxies of proxies, hybrid properties with a custom "
+        "Comparator class and operands that are closure variables of lambda statements refuse the operator (NotImplementedError / "
+        "TypeError) and are outside; collection proxies with zero or "
+        "several related rows (EXISTS = any) are outside: every parent has exactly one related string",
     ]
 
 
@@ -210,6 +489,36 @@ def replay(data):
     kind = next(k for k in KINDS if k in opname)
     ci = opname.replace("not_", "").startswith("i")
     neg = opname.startswith("not_")
+    if inp.get("backend") == "orm-evaluator":
+        with warnings.catch_warnings():
+            warnings.simplefilter("ignore")
+            eng = _receiver_engine([s])
+            T = _receiver_env()["T"]
+            with Session(eng, autoflush=False) as sess:
+                objs = list(sess.execute(select(T)).scalars())
+                got, in_db = _evaluator_case(sess, objs, T, 1, opname, other, escape)
+                sess.rollback()
+            eng.dispose()
+        want = (_py(kind, s.lower(), other.lower()) if ci else _py(kind, s, other)) != neg
+        bad = got is not None and ((1 in got) != want or (1 in in_db) != want)
+        print("%s C08 update(T).where(%s(T.s, %r, escape=%r, autoescape=True)) synchronize_session='evaluate', object / row with s=%r: "
+              "object marked=%s, database row marked=%s (literal semantics: %s)"
+              % ("REPLAY-FAILS" if bad else "REPLAY-PASSES", opname, other, escape, s, None if got is None else 1 in got,
+                 None if got is None else 1 in in_db, want))
+        return 1 if bad else 0
+    if "receiver" in inp:
+        with warnings.catch_warnings():
+            warnings.simplefilter("ignore")
+            eng = _receiver_engine([s])
+            with eng.connect() as conn:
+                got, stmt = _receiver_case(conn, inp["receiver"], opname, other, escape)
+            sql = None if stmt is None else str(stmt.compile(eng))
+            eng.dispose()
+        want = (_py(kind, s.lower(), other.lower()) if ci else _py(kind, s, other)) != neg
+        bad = got is None or (1 in got) != want
+        print("%s C08 %s(<%s>, %r, escape=%r, autoescape=True) on the row with string %r: sql=%r; row selected=%s (literal semantics: %s)"
+              % ("REPLAY-FAILS" if bad else "REPLAY-PASSES", opname, inp["receiver"], other, escape, s, sql, None if got is None else 1 in got, want))
+        return 1 if bad else 0
     e, esc, sql, params = _build(opname, other, escape)
     want = _py(kind, s.lower(), other.lower()) if ci else _py(kind, s, other)
     spec = S.like_match(_wrap(kind, e.lower() if ci else e), s.lower() if ci else s, esc)
